@@ -97,19 +97,26 @@ SIGS: dict[str, dict] = {
     "mult._Sidak.adjust": dict(mod="Multiplicity", lean="Sidak.adjust",
                                params=[("self", f"FwerCfg {A}"), ("pvalue", A), ("k", A)], ret=f"{A} × {A}",
                                rpow=True),
+    # ---- metrics/proportion.py
+    "prop.SampleRatio.analyze": dict(
+        mod="Proportion", lean="SampleRatio.analyze",
+        params=[("self", f"SRCfg {A}"), ("count_control", A), ("count_treatment", A)],
+        pyparams=["self", "data", "control", "treatment", "variant"],
+        ret=f"SRResult {A}", prims=True, binom=True),
 }
 
 MODULE_HEADER = {
     "Aggr": "import TeaTasting.Basic.Prelude\n",
     "Mean": "import TeaTasting.Gen.Aggr\n",
     "Multiplicity": "import TeaTasting.Basic.Prelude\n",
+    "Proportion": "import TeaTasting.Basic.Prelude\n",
 }
-MODULE_SOURCE = {"aggr": "aggr.py", "mean": "metrics/mean.py", "mult": "multiplicity.py"}
+MODULE_SOURCE = {"aggr": "aggr.py", "mean": "metrics/mean.py", "mult": "multiplicity.py", "prop": "metrics/proportion.py"}
 
 FIELD_TYPES = {  # RatioCfg
     "numer": "String", "denom": OS, "numer_covariate": OS, "denom_covariate": OS,
     "alternative": "String", "confidence_level": A, "equal_var": "Bool", "use_t": "Bool",
-    "alpha": A, "ratio": A, "power": A, "m_adj_": A, "m": A,
+    "alpha": A, "ratio": A, "power": A, "m_adj_": A, "m": A, "method": "String", "correction": "Bool",
 }
 AGGR_METHODS = {"count": "aggr.Aggregates.count", "mean": "aggr.Aggregates.mean", "var": "aggr.Aggregates.var",
                 "cov": "aggr.Aggregates.cov", "ratio_var": "aggr.Aggregates.ratio_var",
@@ -126,6 +133,9 @@ BIN = {ast.Add: "+", ast.Sub: "-", ast.Mult: "*", ast.Div: "/"}
 CMP = {ast.Lt: "<", ast.LtE: "≤", ast.Gt: ">", ast.GtE: "≥", ast.Eq: "=", ast.NotEq: "≠"}
 
 
+MODULE_CONSTS: dict[str, dict[str, int]] = {}
+
+
 def _is_self_attr(e: ast.expr, attr: str | None = None) -> bool:
     return (isinstance(e, ast.Attribute) and isinstance(e.value, ast.Name) and e.value.id == "self"
             and (attr is None or e.attr == attr))
@@ -139,7 +149,8 @@ class Tr:
         self.some = set(sig.get("some", ()))
         self.in_aggr = key.startswith("aggr.Aggregates.")
         self.guards: list[str] = []
-        want = [n for n, _ in sig["params"]]
+        self.locals: set[str] = set()
+        want = sig.get("pyparams") or [n for n, _ in sig["params"]]
         have = [a.arg for a in fn.args.posonlyargs + fn.args.args + fn.args.kwonlyargs]
         extra = self.none | self.some
         if [h for h in have if h not in extra] != [w for w in want if w not in extra]:
@@ -215,10 +226,23 @@ class Tr:
                 return f"\"{e.value}\""
             raise Unsupported(f"constant {e.value!r}")
         if isinstance(e, ast.Name):
+            if e.id in MODULE_CONSTS.get(self.key.split(".")[0], {}) and e.id not in self.types and e.id not in self.locals:
+                return f"({MODULE_CONSTS[self.key.split('.')[0]][e.id]} : {A})"
             return e.id
         if isinstance(e, ast.Attribute):
             if _is_self_attr(e):
                 return f"self.{e.attr}"
+            # `scipy.stats.binomtest(k=…, n=…, p=…).pvalue`
+            if e.attr == "pvalue" and isinstance(e.value, ast.Call) and self.dotted(e.value.func) == "scipy.stats.binomtest" \
+                    and self.sig.get("binom"):
+                kw = {k.arg: k.value for k in e.value.keywords}
+                if set(kw) != {"k", "n", "p"} or e.value.args:
+                    raise Unsupported("binomtest arguments")
+
+                def unint(x):
+                    return x.args[0] if (isinstance(x, ast.Call) and isinstance(x.func, ast.Name)
+                                         and x.func.id == "int" and len(x.args) == 1) else x
+                return f"(binomtest {self.ex(unint(kw['k']))} {self.ex(unint(kw['n']))} {self.ex(kw['p'])})"
             raise Unsupported(ast.dump(e))
         if isinstance(e, ast.Tuple):
             return "(" + ", ".join(self.ex(x) for x in e.elts) + ")"
@@ -244,6 +268,15 @@ class Tr:
                     return "()" if (isinstance(e.body, ast.Constant) and e.body.value is None) else self.ex(e.body)
                 if t.left.id in self.some:
                     return self.ex(e.orelse)
+            if (isinstance(t, ast.Call) and isinstance(t.func, ast.Name) and t.func.id == "isinstance"
+                    and _is_self_attr(t.args[0], "ratio")):
+                # `self.ratio if isinstance(self.ratio, float | int) else self.ratio[treatment] / self.ratio[control]`
+                if ast.unparse(t.args[1]) != "float | int" or not _is_self_attr(e.body, "ratio") \
+                        or ast.unparse(e.orelse) != "self.ratio[treatment] / self.ratio[control]":
+                    raise Unsupported("ratio dispatch")
+                return ("(match self.ratio with | RatioSpec.scalar x => x | RatioSpec.mapping rt rc => (rt / rc))")
+            if isinstance(t, (ast.Compare, ast.BoolOp, ast.UnaryOp)):
+                return f"(if {self.cond(t)} then {self.ex(e.body)} else {self.ex(e.orelse)})"
             raise Unsupported("ifexp")
         if isinstance(e, ast.Call):
             return self.call(e)
@@ -269,6 +302,11 @@ class Tr:
                     raise Unsupported("positional MeanResult")
                 fields = ", ".join(f"{kw.arg} := {self.ex(kw.value)}" for kw in e.keywords)
                 return "{ " + fields + " }"
+            if f.id == "SampleRatioResult":
+                if e.args:
+                    raise Unsupported("positional SampleRatioResult")
+                fields = ", ".join(f"{kw.arg} := {self.ex(kw.value)}" for kw in e.keywords)
+                return "{ " + fields + " }"
             if f.id == "Aggregates" and self.key == "aggr.Aggregates.__add__":
                 return self.aggregates_ctor(e)
             raise Unsupported(f"call {f.id}")
@@ -288,12 +326,20 @@ class Tr:
                 loc = [k for k in e.keywords if k.arg == "loc"]
                 return f"(P.norm {self.ex(loc[0].value) if loc else f'(0 : {A})'})"
             recv = f.value
+            if dotted in ("scipy.stats.norm.sf", "scipy.stats.norm.cdf", "scipy.stats.norm.ppf",
+                          "scipy.stats.norm.isf") and len(e.args) == 1 and not e.keywords:
+                return f"((P.norm (0 : {A})).{f.attr} {self.ex(e.args[0])})"
             if f.attr in DIST_METHODS:
                 if len(e.args) != 1 or e.keywords:
                     raise Unsupported("distribution method arguments")
                 return f"({self.ex(recv)}.{f.attr} {self.ex(e.args[0])})"
             if f.attr == "with_zero_div" and not e.args:
                 return self.ex(recv)
+            if (f.attr == "count" and not e.args and isinstance(recv, ast.Subscript) and isinstance(recv.value, ast.Name)
+                    and recv.value.id == "aggr" and isinstance(recv.slice, ast.Name)
+                    and recv.slice.id in ("control", "treatment")):
+                return f"count_{recv.slice.id}"
+
             if isinstance(recv, ast.Name) and recv.id == "self" and not self.in_aggr:
                 if f.attr == "_scale_and_distr":
                     has_eff = any(k.arg == "effect_size" for k in e.keywords) or len(e.args) > 4
@@ -396,8 +442,15 @@ class Tr:
             if s.value is None:
                 raise Unsupported("bare return")
             return ind + self.ex(s.value)
+        if (isinstance(s, ast.Assign) and isinstance(s.value, ast.Call)
+                and self.dotted(s.value.func).endswith("aggregate_by_variants")):
+            return f"{ind}-- {ast.unparse(s.targets[0])} = aggregate_by_variants(…): the per-variant counts are parameters\n" \
+                + self.stmts(rest, ind)
         if isinstance(s, ast.Assign):
             val = self.ex(s.value)
+            for tgt in s.targets:
+                if isinstance(tgt, ast.Name):
+                    self.locals.add(tgt.id)
             out = ""
             for tgt in s.targets:
                 if isinstance(tgt, ast.Name):
@@ -445,6 +498,8 @@ class Tr:
         pr = f"(P : Prims {A}) " if sig.get("prims") else ""
         if sig.get("rpow"):
             pr += f"(rpow : {A} → {A} → {A}) "
+        if sig.get("binom"):
+            pr += f"(binomtest : {A} → {A} → {A} → {A}) "
         # inside the `some` branch of a match on Option String the name is a String
         body = self.stmts(self.fn.body, "  ")
         return f"def {sig['lean']} {pr}{params} : {sig['ret']} :=\n{body}\n"
@@ -532,6 +587,11 @@ def generate(src: Path) -> dict[str, str]:
     mods = {m: ast.parse((src / f).read_text()) for m, f in MODULE_SOURCE.items()}
     out: dict[str, list[str]] = {}
     guards: dict[str, list[str]] = {}
+    for m, tree in mods.items():
+        MODULE_CONSTS[m] = {n.targets[0].id: n.value.value for n in tree.body
+                            if isinstance(n, ast.Assign) and len(n.targets) == 1 and isinstance(n.targets[0], ast.Name)
+                            and isinstance(n.value, ast.Constant) and isinstance(n.value.value, int)
+                            and not isinstance(n.value.value, bool)}
     for key, sig in SIGS.items():
         fn = find(mods, sig.get("py", key))
         tr = Tr(key, sig, fn)
